@@ -11,12 +11,12 @@ LEVEL = "fault_enumeration"
 RULE = ("small conformant libovni programs (1-3 threads, explicit flushes, events after OHe, stream sizes biased "
         "so that multiples of the 4096-byte stdio block fall on event boundaries), in direct and OVNI_TMPDIR mode, "
         "with a generated readdir order (LD_PRELOAD shim) so that both 'metadata first' and 'data first' "
-        "relocation orders occur, and in a third of the programs every write() of the runtime split in two real system calls (kill inside a logical write); one dry run under strace lists the runtime's system calls, then ONE RUN PER "
+        "relocation orders occur, a quarter of the programs with metadata larger than a stdio block (130 CPUs), and in a third of the programs every write() of the runtime split in two real system calls (kill inside a logical write); one dry run under strace lists the runtime's system calls, then ONE RUN PER "
         "CRASH POINT: SIGKILL injected at the entry of the k-th mkdir/openat/write/close/unlink/rmdir/getdents64/"
         "read of a thread, for every k.  Progress witness F_t = the larger of (bytes the killed run successfully wrote to thread t's primary stream.obs, from the strace log) and (bytes covered by the ovni_flush() calls that had returned, from the driver's log).  Oracle on the directory handed to ovniemu: (S1) if "
         "ovniemu -l exits 0, every visible stream holds at least its F_t flushed bytes, equal to the expected "
         "prefix; (S2) a visible stream.json that says finished=1 has all F_t bytes beside it.  "
-        "Non-trivial = crash point inside ovni_thread_free; distinct = (program, readdir order, syscall, k).")
+        "In OVNI_TMPDIR mode two more runs without any kill set a file size limit (RLIMIT_FSIZE, SIGXFSZ ignored) right before a thread is freed, so that the relocation cannot complete: (S2) applies unchanged.  Non-trivial = crash point inside ovni_thread_free; distinct = (program, readdir order, syscall, k).")
 ASSUMPTIONS = ["crash points are system-call boundaries of generated programs (a kill inside a logical write of the runtime is emulated by splitting it in two system calls; stdio-internal writes are not split)",
                "strace 'when=' counts per thread and per system call name (observed)"]
 
@@ -80,7 +80,10 @@ def programs(draw):
     reinit = draw(st.integers(0, 9)) == 0
     return {"threads": threads, "tmpdir": draw(st.sampled_from([True, True, False])), "readdir": draw(st.integers(0, 1)),
             "interleave": draw(st.integers(0, 1000)), "short": draw(st.sampled_from([None, None, "half"])),
-            "reinit": reinit}
+            "reinit": reinit,
+            # one program in four has metadata larger than a stdio block (many CPUs): stream.json then
+            # takes several write() calls
+            "bigmeta": draw(st.integers(0, 3)) == 0}
 
 
 def to_script(case):
@@ -89,9 +92,8 @@ def to_script(case):
     for t in range(nth):
         lines.append("T%d init %d" % (t, 70 + t))
         if t == 0:
-            lines.append("T0 cpu 0 0")
-            lines.append("T0 cpu 1 1")
-            lines.append("T0 cpu 2 2")
+            for c in range(130 if case.get("bigmeta") else 3):
+                lines.append("T0 cpu %d %d" % (c, c))
     clk = 1000
     # round-robin interleaving in chunks
     idx = [0] * nth
@@ -172,14 +174,9 @@ def run(case, ctx):
         cnt = inject.counts(dry.calls)
         # in which (syscall,k) region does thread_free of some thread lie: from its final stream.json write on
         points = [(s, k) for s in inject.SYSCALLS for k in range(1, cnt.get(s, 0) + 1)]
-        for (s, k) in points:
-            wd = os.path.join(base, "k")
-            shutil.rmtree(wd, ignore_errors=True)
-            r = inject.run(ctx.shared["drv"], script, wd, tmpdir_mode=case["tmpdir"], env=env, nthreads=nth,
-                           inject="%s:signal=SIGKILL:when=%d" % (s, k))
-            npoints += 1
-            if not r.killed:
-                continue
+        counters = [0]
+
+        def examine(r, label, inserted_at=None):
             primary_root = r.tmpdir if case["tmpdir"] else r.tracedir
             F = inject.flushed_bytes(r.calls, primary_root)
             opens = {}
@@ -188,7 +185,7 @@ def run(case, ctx):
                     opens[pid] = opens.get(pid, 0) + 1
             in_free = any(v >= 2 for v in opens.values())
             if in_free:
-                nontrivial += 1
+                counters[0] += 1
             os.makedirs(os.path.join(r.tracedir, "cfg"), exist_ok=True) if os.path.isdir(r.tracedir) else None
             accepted = False
             if os.path.isdir(r.tracedir):
@@ -202,7 +199,7 @@ def run(case, ctx):
                 ppath = os.path.normpath(os.path.join(thread_dir(primary_root, t), "stream.obs"))
                 ft = F.get(ppath, 0)
                 log = r.logs.get("T%d" % t, {})
-                j = sum(1 for ln in flush_lines[t] if log.get(ln, ("", []))[0] == "ok")
+                j = sum(1 for ln in flush_lines[t] if log.get(ln + (1 if inserted_at is not None and ln > inserted_at else 0), ("", []))[0] == "ok")
                 if j > 0:
                     f_api = marker_off[t][j - 1] if j - 1 < len(marker_off[t]) else len(full[t])
                     ft = max(ft, f_api)
@@ -215,8 +212,8 @@ def run(case, ctx):
                     finished = json.load(open(jpath)).get("ovni", {}).get("finished") == 1
                 except Exception:
                     pass
-                what = "crash at entry of %s #%d (%s mode, readdir order %d), thread %d: %d bytes flushed, visible stream.obs has %d bytes" % (
-                    s, k, "TMPDIR" if case["tmpdir"] else "direct", case["readdir"], 70 + t, ft, len(data))
+                what = "%s (%s mode, readdir order %d), thread %d: %d bytes flushed, visible stream.obs has %d bytes" % (
+                    label, "TMPDIR" if case["tmpdir"] else "direct", case["readdir"], 70 + t, ft, len(data))
                 if finished and len(data) < ft:
                     raise Violation("S2: stream marked finished but flushed bytes are missing: " + what)
                 if accepted and len(data) < ft:
@@ -227,6 +224,35 @@ def run(case, ctx):
                             raise Violation("visible stream content differs from the flushed prefix: " + what)
                     except obs.DecodeError as e:
                         raise Violation("visible stream prefix does not decode (%s): %s" % (e, what))
+
+        for (s, k) in points:
+            wd = os.path.join(base, "k")
+            shutil.rmtree(wd, ignore_errors=True)
+            r = inject.run(ctx.shared["drv"], script, wd, tmpdir_mode=case["tmpdir"], env=env, nthreads=nth,
+                           inject="%s:signal=SIGKILL:when=%d" % (s, k))
+            npoints += 1
+            if not r.killed:
+                continue
+            examine(r, "crash at entry of %s #%d" % (s, k))
+        if case["tmpdir"]:
+            # no kill at all: the relocation of a finished stream runs into a file size limit
+            # (set right before the thread is freed); "finished only after all flushed bytes are in place"
+            frees = [i for i, l in enumerate(lines) if l.endswith(" free")]
+            biggest = max(len(v) for v in full.values())
+            limits = [L for L in (biggest // 2, biggest - 1, 64) if 0 < L < biggest]
+            if ctx.tier == "quick":
+                limits = limits[:2]
+            for li, L in enumerate(limits):
+                if not frees:
+                    break
+                at = frees[li % len(frees)]
+                scriptL = "\n".join(lines[:at] + ["%s fsize %d" % (lines[at].split()[0], L)] + lines[at:]) + "\n"
+                wd = os.path.join(base, "k")
+                shutil.rmtree(wd, ignore_errors=True)
+                r = inject.run(ctx.shared["drv"], scriptL, wd, tmpdir_mode=True, env=env, nthreads=nth)
+                npoints += 1
+                examine(r, "no crash, file size limit of %d bytes set right before '%s'" % (L, lines[at]), inserted_at=at)
+        nontrivial = counters[0]
         ctx.stats.extra["crash_points"] = ctx.stats.extra.get("crash_points", 0) + npoints
         ctx.stats.extra["crash_points_in_thread_free"] = ctx.stats.extra.get("crash_points_in_thread_free", 0) + nontrivial
         return {"nt": nontrivial > 0, "cls": ["mode:" + ("tmpdir" if case["tmpdir"] else "direct"), "threads:%d" % nth,
